@@ -289,6 +289,18 @@ func (p *Prog) readsMirrorUnguarded(fi *FuncInfo, depth int, seen map[string]boo
 				if locals[objOf(info, x)] {
 					found = true
 				}
+			case *ast.CallExpr:
+				// a predicate of the type that reads the flag: f.indexed()
+				if callee := p.staticCallee(fi.Pkg, x); callee != nil && callee.Pkg == fi.Pkg && callee.Decl.Body != nil && len(callee.Decl.Body.List) == 1 {
+					if rs, ok := callee.Decl.Body.List[0].(*ast.ReturnStmt); ok {
+						ast.Inspect(rs, func(z ast.Node) bool {
+							if sel, ok := z.(*ast.SelectorExpr); ok && sel.Sel.Name == fileFields.Flag {
+								found = true
+							}
+							return !found
+						})
+					}
+				}
 			}
 			return !found
 		})
